@@ -78,6 +78,7 @@ func main() {
 	extraRoot := flag.String("modroot", "", "directory to run `go list` in (default: repo)")
 	extra := flag.String("extra", "", "comma separated extra packages (e.g. of the module cache) of which only the files matching -only-files are rewritten")
 	onlyFiles := flag.String("only-files", "", "regexp selecting the files of -extra packages")
+	points := flag.String("points", "", "consensus profile: regexp of file paths in which vrt.Point(site) is inserted before every statement")
 	flag.Parse()
 	if *out == "" || flag.NArg() == 0 {
 		fmt.Fprintln(os.Stderr, "usage: instr -out dir -profile p pkg...")
@@ -111,6 +112,9 @@ func main() {
 		os.Exit(2)
 	}
 	rep := &report{Profile: *profile, Overlay: map[string]string{}}
+	if *points != "" {
+		pointsRe = regexp.MustCompile(*points)
+	}
 	for _, p := range pkgs {
 		p.only = nil
 		if extraSet[p.ImportPath] {
@@ -129,6 +133,48 @@ func main() {
 	rp, _ := json.MarshalIndent(rep, "", " ")
 	_ = os.WriteFile(filepath.Join(*out, "sites.json"), rp, 0o644)
 	fmt.Printf("instr: profile=%s packages=%d files=%d sites=%d skipped=%d\n", *profile, len(pkgs), len(rep.Overlay), len(rep.Sites), len(rep.Skipped))
+}
+
+// pointsRe selects the files that get statement-level points (consensus profile).
+var pointsRe *regexp.Regexp
+
+// insertPoints puts vrt.Point("file:line") before every statement of every block, case and comm clause of f.
+func (r *rewriter) insertPoints(f *ast.File) int {
+	n := 0
+	withPoints := func(list []ast.Stmt) []ast.Stmt {
+		out := make([]ast.Stmt, 0, 2*len(list))
+		for _, st := range list {
+			if _, isDecl := st.(*ast.DeclStmt); !isDecl {
+				pos := r.fset.Position(st.Pos())
+				out = append(out, &ast.ExprStmt{X: &ast.CallExpr{Fun: r.vrt("Point"), Args: []ast.Expr{str(fmt.Sprintf("%s:%d", filepath.Base(pos.Filename), pos.Line))}}})
+				n++
+			}
+			out = append(out, st)
+		}
+		return out
+	}
+	ast.Inspect(f, func(node ast.Node) bool {
+		switch b := node.(type) {
+		case *ast.BlockStmt:
+			// the body of a switch / select holds clauses, not statements
+			if len(b.List) > 0 {
+				switch b.List[0].(type) {
+				case *ast.CaseClause, *ast.CommClause:
+					return true
+				}
+			}
+			b.List = withPoints(b.List)
+		case *ast.CaseClause:
+			b.Body = withPoints(b.Body)
+		case *ast.CommClause:
+			b.Body = withPoints(b.Body)
+		}
+		return true
+	})
+	if n > 0 {
+		r.rep.Sites = append(r.rep.Sites, site{Pos: r.file, Kind: fmt.Sprintf("points:%d", n)})
+	}
+	return n
 }
 
 func goList(dir string, targets []string) (map[string]string, []*pkgInfo, error) {
@@ -274,6 +320,9 @@ func rewritePackage(p *pkgInfo, exports map[string]string, out, profile string, 
 		r := &rewriter{fset: fset, info: info, profile: profile, rep: rep, skip: map[ast.Node]bool{}, file: p.GoFiles[i]}
 		before := len(rep.Sites)
 		r.dropBodies(f, drop)
+		if profile == "consensus" && pointsRe != nil && pointsRe.MatchString(filepath.Join(p.Dir, p.GoFiles[i])) {
+			r.insertPoints(f)
+		}
 		r.rewriteFile(f)
 		changed := len(rep.Sites) > before || r.usesVrt
 		if profile == "sched" {
